@@ -302,6 +302,16 @@ def cases(tier='quick', families=None):
             ch2 = Type('CHOICE', root=[Member('a', Type('INTEGER')), Member('b', Type('BOOLEAN'))])
             out.append(Case('S4', 'optchoice2/' + td, td, Type('SEQUENCE', root=[Member('f', Type('NULL'), optional=True), Member('id', ch2, optional=True),
                                                                                     Member('body', Type('OCTET STRING'), optional=True), Member('n', Type('REAL'))])))
+        # extension additions: exactly 8 and 9 OPTIONAL additions (the presence bitmap fills / overflows its last octet), and DEFAULT
+        # additions (an addition that is present but equal to its DEFAULT must not count as present)
+        for na in (8, 9):
+            out.append(Case('S4', 'extadds%d' % na, 'AUTOMATIC', Type('SEQUENCE', root=[Member('a', Type('INTEGER', cons=Cons(0, 7)))], ext=True,
+                                                                         adds=[Member('e%d' % i, copy.copy(kinds[i % 4]), optional=True) for i in range(na)])))
+        out.append(Case('S4', 'extdefault', 'AUTOMATIC', Type('SEQUENCE', root=[Member('a', Type('BOOLEAN'))], ext=True, adds=[
+            Member('d', Type('INTEGER'), has_default=True, default=7), Member('e', Type('BOOLEAN'), optional=True),
+            Member('s', Type('IA5String'), has_default=True, default='dflt')])))
+        out.append(Case('S4', 'extdefault1', 'AUTOMATIC', Type('SEQUENCE', root=[Member('a', Type('BOOLEAN'))], ext=True, adds=[
+            Member('d', Type('INTEGER'), has_default=True, default=7)])))
     # ---- S5: recursion knots
     if fam('S5'):
         out.append(Case('S5', 'rec_optional', 'AUTOMATIC',
